@@ -153,6 +153,8 @@ def _arch():
     )
 
 
+ARCH_STR = "Layered Architecture: Layer A: [r.a]; Layer B: [r.b]; Layer C: [^r\\.c$]"
+
 LR_ACTIONS = [
     ("based_on",), ("layers_that",), ("named", "A"), ("named", "B"), ("named_list", ("A", "B")),
     ("named_list", ("A",)), ("should",), ("should_only",), ("should_not",),
@@ -237,6 +239,16 @@ def run_shard(shard, tier, seed):
             # "exactly one subject layer": in every reachable builder state the subject filters of the
             # lowered rule belong to at most one layer (read through Rule.rule_subjects; skipped if the
             # implementation no longer exposes it)
+            a = getattr(obj, "_architecture", None)
+            if a is not None:
+                res.stats["architecture-of-rule:observed"] += 1
+                try:
+                    now = la_observe(a)["str"]
+                except Exception as e:  # noqa: BLE001
+                    now = f"{type(e).__name__}: {e}"
+                if now != ARCH_STR:
+                    res.violation("building-a-layer-rule-changed-the-architecture-definition", {"history": [list(x) for x in hist]}, ARCH_STR, now)
+                    return
             rule = getattr(obj, "_rule", None)
             subs = getattr(rule, "rule_subjects", None) if rule is not None else None
             if subs is None:
